@@ -38,6 +38,7 @@ From V Require Import Proto.TypeEraseNextDefs.
 From V Require Import Proto.AsyncStackDefs.
 From V Require Import Proto.TakeUntilDefs.
 From V Require Import Proto.StopImmediatelyDefs.
+From V Require Import Proto.IoCancelDefs.
 Extraction Blacklist List String Int.
 Cd "../ocaml".
 Extraction "model.ml"
@@ -230,5 +231,9 @@ Extraction "model.ml"
   StopImmediately.step
   StopImmediately.init
   StopImmediately.quiescent
+  IoCancel.step
+  IoCancel.init
+  IoCancel.crashed
+  IoCancel.parked_ok
   (*END*).
 Cd "../coq".
